@@ -198,6 +198,7 @@ class Polarity(Interp):
         self.unknown_ops: List[str] = []
         self.idioms: List[str] = []
         self.definite: List[str] = []
+        self.arg_sites: List[tuple] = []
         self.callable_dec: set = set()
         self.iter_models: Dict[str, PV] = {}
 
@@ -337,7 +338,8 @@ class Polarity(Interp):
                 sign = "pos"
             kind = a.kind if (b.is_const and b.kind is None) else (b.kind if (a.is_const and a.kind is None) else None)
             if kind and kind[0] in ("diff", "points", "mask", "table", "diffx"):
-                kind = kind if kind[0] in ("points",) else None
+                keep = kind[0] == "points" or (kind[0] == "diff" and "pi" in unparse(node))
+                kind = kind if keep else None
             lit = a.lit + b.lit if isinstance(a.lit, (int, float)) and isinstance(b.lit, (int, float)) else None
             return mk(combine(a, b, padd), sign, kind, lit=lit)
         if isinstance(op, ast.Sub):
@@ -351,6 +353,8 @@ class Polarity(Interp):
             lit = a.lit - b.lit if isinstance(a.lit, (int, float)) and isinstance(b.lit, (int, float)) else None
             if lit is not None:
                 sign = self.const_sign(lit)
+            if k is None and a.kind and a.kind[0] == "diff" and b.is_const and b.kind is None and "pi" in unparse(node):
+                k = a.kind  # (d + pi) % 2pi - pi : wrapped difference
             return mk(pol, sign, k, lit=lit)
         if isinstance(op, ast.Mult):
             return self.mult(a, b, node)
@@ -363,6 +367,8 @@ class Polarity(Interp):
         if isinstance(op, ast.Pow):
             return self.power(a, b, node)
         if isinstance(op, ast.Mod):
+            if a.kind and a.kind[0] == "diff" and b.is_const and "pi" in unparse(node):
+                return mk(kind=a.kind)
             if a.is_const and b.is_const:
                 return mk()
             self.note_unknown(node, "mod of a seed-dependent value")
@@ -381,6 +387,10 @@ class Polarity(Interp):
 
     def _diff_kind(self, a: PV, b: PV):
         ka, kb = a.kind, b.kind
+        if kb and kb[0] == "constellation":
+            kb = ("points", "A")
+        if ka and ka[0] == "constellation":
+            ka = ("points", "A")
         if kb and kb[0] == "points" and (ka is None or ka[0] in ("received",)):
             return ("diff", kb[1])
         if ka and ka[0] == "points" and (kb is None or kb[0] in ("received",)):
@@ -517,6 +527,12 @@ class Polarity(Interp):
         if isinstance(idx, PV) and idx.kind and idx.kind[0] == "mask" and base.kind and base.kind[0] in ("constellation",):
             return mk(kind=("points", idx.kind[1]))
         if base.kind and base.kind[0] == "labels":
+            if isinstance(idx, PV) and idx.kind and idx.kind[0] in ("nearest_pt", "farthest_pt"):
+                return mk(kind=("hard_bits", idx.kind[0], idx.kind[1]))
+            if isinstance(idx, PV) and idx.items:
+                for it_ in idx.items:
+                    if isinstance(it_, PV) and it_.kind and it_.kind[0] in ("nearest_pt", "farthest_pt"):
+                        return mk(kind=("hard_bits", it_.kind[0], it_.kind[1]))
             return base
         # table[nearest index] -> nearest value: non-decreasing in the quantised seed
         if isinstance(idx, PV) and idx.kind and idx.kind[0] == "nearest" and base.kind and base.kind[0] == "table" and base.kind[1] == idx.kind[1]:
@@ -635,6 +651,14 @@ class Polarity(Interp):
         if short in ("min", "max", "amin", "amax"):
             return self.reduce_minmax(short.replace("a", "") if short.startswith("a") else short, target, rest, kwargs, node)
         if short in ("argmin", "argmax") and target is not None:
+            self.arg_sites.append((node, short, target))
+            if target.kind and target.kind[0] == "elem":
+                lab = target.kind[1]
+                pe = target.p("E" + lab)
+                if (short == "argmin" and pe == I) or (short == "argmax" and pe == D):
+                    return mk({}, None, ("nearest_pt", lab))
+                self.definite.append(f"`{unparse(node)[:70]}` selects the FARTHEST point ({short} of a value that is {pe} in the distance)")
+                return mk({}, None, ("farthest_pt", lab))
             if target.kind and target.kind[0] == "distx" and short == "argmin":
                 return mk({}, None, ("nearest", target.kind[1], target.kind[2]))
             if target.is_const:
@@ -668,6 +692,11 @@ class Polarity(Interp):
                 out = self.join(out, a)
             return mk(out.poldict())
         if short in ("angle", "atan2"):
+            tv = target if target is not None else None
+            if tv is not None and tv.kind and tv.kind[0] in ("received", "points", "constellation"):
+                return mk(kind=tv.kind)  # phase of the received value / of the points: circular-distance idiom
+            if tv is not None and tv.kind is None and not tv.is_const:
+                return mk(kind=("received",))
             if all(a.is_const for a in ([recv] if recv else []) + args):
                 return mk()
             self.note_unknown(node)
@@ -750,6 +779,7 @@ class Polarity(Interp):
         sub.run(env)
         self.idioms += sub.idioms
         self.definite += sub.definite
+        self.arg_sites += sub.arg_sites
         self.unknown_ops += [f"[in {callee.qualname}] {u}" for u in sub.unknown_ops]
         out: Optional[PV] = None
         for v, _r, _e in sub.returns:
